@@ -20,7 +20,11 @@ RULE = ("for every convex polygon state of spec/Polygon2.tla (both orientations,
 INPLANE = [Placement(name="identity"), Placement(t=(30, -20, 0), name="offset"),
            Placement(q=(2, 0, 0, 1), t=(F(1, 2), -3, 0), name="rotz_53deg"),          # rotation about z by atan2(4,3)
            Placement(s=F(1, 1000), q=(3, 0, 0, -1), t=(F(1, 100), F(1, 50), 0), name="milli_rotz"),
-           Placement(s=1000, q=(1, 0, 0, 1), name="kilo_rotz90")]
+           Placement(s=1000, q=(1, 0, 0, 1), name="kilo_rotz90"),
+           # edges that lean 4e-6 rad from the axes (slope tests must not be approximate) and a nanometre-sized shape
+           # (absolute tolerances must not matter)
+           Placement(q=(500000, 0, 0, 1), t=(F(1, 3), F(2, 7), 0), name="tilt_4e-6_rad"),
+           Placement(s=F(1, 10 ** 9), q=(2, 0, 0, 1), t=(F(3, 10 ** 9), F(-2, 10 ** 9), 0), name="nano_rotz_53deg")]
 RADII = [[0, 1], [1, 100], [1, 3], [2, 1], [10, 1]]
 
 
@@ -37,7 +41,7 @@ def run(ctx):
     cases = []
     for r in precs:
         k = h(r["v"], ctx.seed)
-        for pl in ([INPLANE[0], INPLANE[1 + k % 4]] if quick else INPLANE):
+        for pl in ([INPLANE[0], INPLANE[1 + k % (len(INPLANE) - 1)]] if quick else INPLANE):
             cases.append({"rec": r, "pl": pl.to_json(), "radii": RADII if not quick else [RADII[0], RADII[1 + k % 4]]})
     for case, (mism, _) in zip(cases, pmap(re_.eval_polygon, cases)):
         ctx.case((json.dumps(case["rec"]["v"]), json.dumps(case["pl"])), nontrivial=True,
